@@ -296,6 +296,9 @@ func (c *client) SendBatch(ctx context.Context, batch []hrpc.Call) (
 		for i, r := range roundRes {
 			if r.Error != nil {
 				res[rpcToRes[batch[i]]] = r
+				// (also a call left out because its own context ended)
+				unretryableErrorSeen = true
+				allOK = false
 			}
 		}
 		if !ok {
@@ -435,7 +438,10 @@ func (c *client) findClients(ctx context.Context, batch []hrpc.Call, res []hrpc.
 		cancel()
 		if err != nil {
 			if ctx.Err() == nil && rpc.Context().Err() != nil {
-				err = rpc.Context().Err()
+				// only this call's own context has ended: it is reported
+				// for this call and the batch goes on without it
+				res[i].Error = rpc.Context().Err()
+				continue
 			}
 			res[i].Error = err
 			ok = false
